@@ -408,4 +408,50 @@ theorem topK_spec (scores : List Rat) (k : Nat) (sort : Bool) :
     TopKSpec scores k sort (topK scores k sort) = true :=
   (TopKSpec_iff scores k sort _).mpr (topK_prop scores k sort)
 
+/-! ### the Boolean specifications of the driver hold of the model's outputs -/
+
+theorem rabs_nonneg (x : Rat) : 0 ≤ rabs x := by rw [rabs_eq_abs]; exact abs_nonneg x
+
+theorem close_self {tol scale : Rat} (ht : 0 ≤ tol) (hs : 0 ≤ scale) (a : Rat) : close tol scale a a = true := by
+  unfold close
+  simp only [sub_self, decide_eq_true_eq]
+  have : rabs 0 = 0 := by simp [rabs]
+  rw [this]
+  exact mul_nonneg ht (by linarith)
+
+theorem close_of_eq {tol scale a b : Rat} (ht : 0 ≤ tol) (hs : 0 ≤ scale) (h : a = b) : close tol scale a b = true := by
+  subst h; exact close_self ht hs a
+
+/-- the pseudo-inverse of the model satisfies the specification evaluated on the implementation's output -/
+theorem pinvSpec_model (tol : Rat) (ht : 0 ≤ tol) (w : Vec) : PinvSpec tol w (pinvVec w) = true := by
+  unfold PinvSpec
+  simp only [pinvVec_length, beq_self_eq_true, Bool.true_and, List.all_eq_true, List.mem_range]
+  intro i _
+  rw [vget_pinvVec]
+  by_cases h : vget w i = 0
+  · simp [h, pinv]
+  · simp only [h, if_false]
+    exact close_of_eq ht (le_refl 0) (pinv_mul_self h)
+
+theorem normalizeSpec1_model (tol : Rat) (ht : 0 ≤ tol) (a : Mat) : NormalizeSpec1 tol a (normalize1 a) = true := by
+  unfold NormalizeSpec1 rowAll colAll
+  have hs : ∀ i, sumTo a.nCol (fun j => rabs (a.get i j)) = vget (norms1 a) i := by
+    intro i; rw [vget_norms1]; exact sumTo_congr (fun j _ => rabs_eq_abs _)
+  simp only [normalize1, scaleRows, Mat.ofFn_nRow, Mat.ofFn_nCol, beq_self_eq_true, Bool.true_and, List.all_eq_true,
+    List.mem_range, hs]
+  intro i hi
+  have hn := norms1_nonneg a i
+  by_cases h : vget (norms1 a) i = 0
+  · simp only [h, if_true, List.all_eq_true, List.mem_range]
+    intro j hj
+    have := (normalize1_null_row a i h j).1
+    unfold normalize1 scaleRows at this
+    simp [this]
+  · simp only [h, if_false, List.all_eq_true, List.mem_range]
+    intro j hj
+    apply close_of_eq ht (by linarith)
+    have := normalize1_proportional a i j
+    unfold normalize1 scaleRows at this
+    exact this
+
 end SkNet.Convert
